@@ -213,7 +213,7 @@ class Obligations:
         import multiprocessing
         global _QUEUE
         _QUEUE = s.pending
-        ncores = ncores or int(os.environ.get('VERIF_CORES', '16'))
+        ncores = ncores or int(os.environ.get('VERIF_CORES') or os.cpu_count() or 16)
         if len(_QUEUE) == 0:
             return
         with multiprocessing.get_context('fork').Pool(min(ncores, len(_QUEUE))) as pool:
